@@ -20,6 +20,7 @@ def parseEv (t : String) : Option (Option Ev) :=
   | ["ERRoffsetfetch"] => some (some .incomplete)
   | ["ERRwarmup"] => some (some .incomplete)
   | ["Wbad"] => some (some .incomplete)
+  | ["Cunknown"] => some (some .incomplete)   -- a commit whose own context ended early finished with an error: the client cannot know whether it took effect, so "the last successful commit" is not defined and the final-value clauses are not judged (the ordering clauses are)
   | _ => none
 
 def refusals : St → List Ev → List String → List String
